@@ -175,3 +175,84 @@ def gen_c10(tier):
         _, src = c10_harness(op, nm, shapes, t, to, conv, cuts)
         out += src
     return {"c10_op.rs": out}
+
+
+# ------------------------------------------------------------------------------------
+# C03: descriptors (full usize) and dispatcher (n <= 6) per operator
+# ------------------------------------------------------------------------------------
+
+OPS = {
+    "OPERATOR_MAP": ["==", "!=", "===", "!==", "!", "!!", "<", "<=", ">", ">=", "+", "-", "*", "/", "%",
+                     "max", "min", "merge", "in", "cat", "substr", "log"],
+    "DATA_OPERATOR_MAP": ["var", "missing", "missing_some"],
+    "LAZY_OPERATOR_MAP": ["if", "?:", "or", "and", "map", "filter", "reduce", "all", "some", "none"],
+}
+OPNAME = {"==": "eq", "!=": "ne", "===": "seq", "!==": "sne", "!": "not", "!!": "bool", "<": "lt", "<=": "lte",
+          ">": "gt", ">=": "gte", "+": "add", "-": "sub", "*": "mul", "/": "div", "%": "mod", "?:": "ternary"}
+
+
+def opid(o):
+    return OPNAME.get(o, o)
+
+
+def gen_c03(tier):
+    out = prelude("c03_op.rs")
+    allops = [(t, o) for t in OPS for o in OPS[t]]
+    # descriptors: groups of 6 operators per harness, len over the full usize
+    for gi in range(0, len(allops), 6):
+        grp = allops[gi:gi + 6]
+        body = ""
+        for (t, o) in grp:
+            body += '    check_descriptor(&%s.get("%s").unwrap().num_params, "%s", len);\n' % (t, o, o)
+        out += '''
+//@ harness: c03_desc_%(i)d tier=quick timeout=600 kind=main
+//@ encodes: NumParams::is_valid_len, NumParams::check_len, NumParams::can_accept_unary, table entries %(ops)s
+//@ bound: operand count = every usize (2^64 values); acceptance == documented arity set
+#[cfg_attr(kani, kani::proof)]
+#[cfg_attr(kani, kani::unwind(14))]
+#[cfg_attr(kani, kani::stub(std::fmt::format, stub_format))]
+#[cfg_attr(verif_replay, test)]
+pub fn c03_desc_%(i)d() {
+    let len = in_usize::<1>();
+    vshow!("len = {}", len);
+%(body)s}
+''' % dict(i=gi // 6, ops=" ".join(o for _, o in grp), body=body)
+    # dispatcher: one harness per (operator, concrete operand count) and per (operator, bare operand shape)
+    quick_arr = {("==", 1), ("==", 2), ("max", 0), ("var", 3), ("reduce", 3), ("!", 2), ("<", 4)}
+    quick_una = {("!", 2), ("==", 0), ("var", 3), ("if", 2)}
+    tymap = {"OPERATOR_MAP": "Operator", "DATA_OPERATOR_MAP": "DataOperator", "LAZY_OPERATOR_MAP": "LazyOperator"}
+    for (t, o) in allops:
+        for n in range(0, 7):
+            if n >= 5 and (o, n) not in quick_arr and o not in ("+", "cat", "merge", "missing", "if", "?:", "*", "and", "or", "min"):
+                continue
+            tr = "quick" if (o, n) in quick_arr else "thorough"
+            out += '''
+//@ harness: c03_array_%(id)s_%(n)d tier=%(tier)s timeout=900 kind=main mem=8
+//@ encodes: op::op_from_map::<%(ty)s>, NumParams::check_len, NumParams::can_accept_unary, %(t)s["%(o)s"]
+//@ bound: rule {"%(o)s": [b1..b%(n)d]} with %(n)d literal operands: accepted iff %(n)d is a documented count; operands passed on by pointer identity, in order
+#[cfg_attr(kani, kani::proof)]
+#[cfg_attr(kani, kani::unwind(%(unw)d))]
+#[cfg_attr(kani, kani::stub(std::fmt::format, stub_format))]
+#[cfg_attr(verif_replay, test)]
+pub fn c03_array_%(id)s_%(n)d() {
+    dispatch_array(&%(t)s, "%(o)s", %(n)d);
+}
+''' % dict(id=opid(o), n=n, tier=tr, ty=tymap[t], t=t, o=o, unw=max(len(o) + 2, n + 2, 4))
+        for sh in range(4):
+            tr = "quick" if (o, sh) in quick_una else "thorough"
+            if tr == "thorough" and sh in (0, 3) and o not in ("var", "!", "cat"):
+                continue
+            out += '''
+//@ harness: c03_unary_%(id)s_%(sh)d tier=%(tier)s timeout=900 kind=main mem=8
+//@ encodes: op::op_from_map::<%(ty)s>, NumParams::check_len, NumParams::can_accept_unary, %(t)s["%(o)s"]
+//@ bound: rule {"%(o)s": x}, x a bare %(shape)s: exactly one operand, the value itself (pointer identity), iff arity 1 is documented
+#[cfg_attr(kani, kani::proof)]
+#[cfg_attr(kani, kani::unwind(%(unw)d))]
+#[cfg_attr(kani, kani::stub(std::fmt::format, stub_format))]
+#[cfg_attr(verif_replay, test)]
+pub fn c03_unary_%(id)s_%(sh)d() {
+    dispatch_unary(&%(t)s, "%(o)s", %(sh)d);
+}
+''' % dict(id=opid(o), sh=sh, tier=tr, ty=tymap[t], t=t, o=o, unw=max(len(o) + 2, 4),
+           shape=["null", "Bool(any)", "Number(any i64)", '""'][sh])
+    return {"c03_op.rs": out}
